@@ -344,7 +344,58 @@ def execute_ports(desc):
         s.cleanup()
 
 
+def execute_slow_resolver(desc):
+    """The lock host is a name, and for the contender the name service answers slower than
+    bind_timeout_ms (fault injected through an LD_PRELOAD shim around getaddrinfo) while a run holds the
+    lock: the contender cannot have acquired anything, so it must end with an error and act on nothing."""
+    api = desc["api"]
+    s = sc.Scratch("c14r")
+    try:
+        r = sc.Repo(s, "r", TARGETS, commands={"a": {"build": "x"}, "b": {"build": "x"}})
+        r.cfg["server"]["lock"]["host"] = "localhost"
+        r.cfg["server"]["lock"]["bind_timeout_ms"] = desc["timeout_ms"]
+        r.write_cfg()
+        r.commit("lock host by name")
+        if r.mr("checkpoint", "update").code != 0:
+            raise common.EngineError("seed checkpoint failed (lock host localhost)")
+        viol = []
+        c = ctlmod.Controller(s)
+        try:
+            h = c.spawn("holder", [common.MONORAIL, "run", "-c", "build", "-t", "a", "b"], r.dir, s.env(c.env()))
+            if not c.wait(lambda: len(c.waiting()) >= 1 or h.done(), 15) or h.done():
+                raise common.EngineError("holder run did not start its commands (exit %s %s)" % (h.code, h.err[:200]))
+            before = sc.snapshot(os.path.join(r.out_dir(), "tracking"))
+            nchildren = len(c.children)
+            con = r.mr(*APIS[api], env={"LD_PRELOAD": common.SLOW_RESOLVE_SO, "MRV_SLOW_RESOLVE_MS": str(desc["delay_ms"]), "VHELPER_CTL": c.path})
+            c.pump(0.05)
+            after = sc.snapshot(os.path.join(r.out_dir(), "tracking"))
+            if con.code == 0:
+                viol.append(("two-holders", "name service slower (%d ms) than bind_timeout_ms (%d): %s ran to completion (exit 0) while a run holds the lock" % (desc["delay_ms"], desc["timeout_ms"], " ".join(APIS[api]))))
+            if after != before:
+                viol.append(("loser-modified-state", "slow name service: %s changed <out_dir>/tracking while a run holds the lock" % " ".join(APIS[api])))
+            if len(c.children) != nchildren:
+                viol.append(("loser-started-executable", "slow name service: %s started an executable while a run holds the lock" % " ".join(APIS[api])))
+            t_end = time.time() + 15
+            while not h.done() and time.time() < t_end:
+                c.pump(0.01)
+                for ch in list(c.waiting()):
+                    c.release(ch, 0)
+            return {"evaluations": 1, "nontrivial": 1, "states": [["slow-resolver", api]], "transitions": 2,
+                    "violations": [{"sig": sig, "detail": d, "rank": 45, "case": {"c14r": desc}} for sig, d in viol],
+                    "sample": {"slow_resolver": desc, "contender_exit": con.code, "contender_stderr": con.err[:120].decode(errors="replace")}}
+        finally:
+            c.close()
+    except common.EngineError as e:
+        return {"engine_error": str(e)}
+    except Exception:
+        return {"engine_error": traceback.format_exc()[-1500:]}
+    finally:
+        s.cleanup()
+
+
 def _exec_any(desc):
+    if "delay_ms" in desc:
+        return execute_slow_resolver(desc)
     if "ports" in desc:
         return execute_ports(desc)
     return execute_nested(desc) if "nested" in desc else execute(desc)
@@ -366,6 +417,8 @@ def scenarios(tier):
     for kind in ("child-of-holder", "orphan-of-killed-holder"):
         for api in names:
             out.append({"nested": kind, "api": api})
+    for api in names:
+        out.append({"api": api, "delay_ms": 700, "timeout_ms": 200})
     out.append({"ports": [65535, 65536, 70000, 131072], "apis": ["checkpoint_update", "out_delete"] if tier == "quick" else names})
     return out
 
@@ -385,7 +438,7 @@ def run(prop, tier):
            "distinct_nontrivial": sum(r["nontrivial"] for r in results),
            "violations": [v for r in results for v in r["violations"]],
            "samples": [r["sample"] for r in results[:: max(1, len(results) // 5)]][:6], "exhaustive": True,
-           "rule": "contenders: every ordered pair (thorough: plus every multiset of 3) over {run, checkpoint update, checkpoint delete, out delete --all}, all started and held at lock.pre; every maximal sequence of {attempt i, finish holder, kill holder (SIGKILL)}, plus for pairs an attempt that is still in progress (2 s, bind timeout raised to 6 s) when the holder finishes or is killed; plus contenders that descend from a holder (a command executable of the holding run, or the orphaned executable of a SIGKILLed run while another run holds, starts each of the four APIs with the environment monorail gave it); plus lock ports at and beyond the end of the valid range (65535, 65536, 70000, 131072) shared by a holding run and a contender; each sequence executed from scratch on real processes against a repository with a checkpoint and a completed run; invariants: never two contenders past lock acquisition; an attempt while somebody holds exits non-zero with a server lock error, starts no executable and leaves <out_dir> byte-identical (also compared with its state before any contender was started, as long as no holder has worked); an attempt while nobody holds (initially, after exit, after SIGKILL) acquires at once; states = (contender statuses, holder) per contender tuple"}
+           "rule": "contenders: every ordered pair (thorough: plus every multiset of 3) over {run, checkpoint update, checkpoint delete, out delete --all}, all started and held at lock.pre; every maximal sequence of {attempt i, finish holder, kill holder (SIGKILL)}, plus for pairs an attempt that is still in progress (2 s, bind timeout raised to 6 s) when the holder finishes or is killed; plus contenders that descend from a holder (a command executable of the holding run, or the orphaned executable of a SIGKILLed run while another run holds, starts each of the four APIs with the environment monorail gave it); plus contenders for which the name service of the lock host answers slower than bind_timeout_ms (LD_PRELOAD shim around getaddrinfo) while a run holds the lock; plus lock ports at and beyond the end of the valid range (65535, 65536, 70000, 131072) shared by a holding run and a contender; each sequence executed from scratch on real processes against a repository with a checkpoint and a completed run; invariants: never two contenders past lock acquisition; an attempt while somebody holds exits non-zero with a server lock error, starts no executable and leaves <out_dir> byte-identical (also compared with its state before any contender was started, as long as no holder has worked); an attempt while nobody holds (initially, after exit, after SIGKILL) acquires at once; states = (contender statuses, holder) per contender tuple"}
     by = {}
     for v in agg["violations"]:
         by[v["sig"]] = by.get(v["sig"], 0) + 1
@@ -398,7 +451,7 @@ def run(prop, tier):
 
 def replay(prop, path):
     body = json.load(open(path))
-    r = _exec_any(body["case"].get("c14p") or body["case"].get("c14n") or body["case"]["c14"])
+    r = _exec_any(body["case"].get("c14r") or body["case"].get("c14p") or body["case"].get("c14n") or body["case"]["c14"])
     if "engine_error" in r:
         print("ENGINE:", r["engine_error"])
         return 2
